@@ -277,8 +277,9 @@ def ctorOps (pairs : List (List K × V)) : List (Op K V) := (dictOf pairs).map f
 /-- `MultiKeyDict(*args, **kwargs)` in general: the arguments are first collapsed by `dict(...)`,
     then assigned one by one; a key of the mapping that is itself a tuple is taken as a KEY TUPLE
     (`MultiKeyDict({("a", "b"): 1, "c": 1})` has one value with three keys), a non-tuple key `k` is
-    `[k]`.  `MultiKeyDict.fromkeys(ks, v)` (`dict.fromkeys` on the subclass: `cls()`, then
-    `self[k] = v` for every `k`) is `ofPairs (ks.map fun k => ([k], v))` as well. -/
+    `[k]` (the tie never mixes `k` and the 1-tuple `(k,)` in one call).  `MultiKeyDict.fromkeys(ks, v)`
+    (`dict.fromkeys` on the subclass: `cls()`, then `self[k] = v` for EVERY element, repeated ones
+    included — nothing is collapsed) is `ofDict (ks.map fun k => (k, v))`. -/
 def ofPairs (pairs : List (List K × V)) : St K V := (run St.empty (ctorOps pairs)).1
 
 /-! ### what the caller writes: key arguments of every shape -/
